@@ -26,6 +26,21 @@ pub proof fn lemma_client_id_mask(value: u64)
 }
 
 impl ClientID {
+    /*@extract yrs/src/block.rs | impl ClientID | const MASK @*/
+
+    // the REAL body: checks the range of a value read from untrusted input before `new` is called
+    /*@extract yrs/src/block.rs | impl ClientID | fn decode | label=client_id_decode | rules=SUB(from=crate::encoding::read::Error;;to=Error)
+    @ret r
+    @sig
+        ensures
+            match r {
+                Ok(c) => client_id_53bit(value) && c == ClientID(value),
+                Err(_) => !client_id_53bit(value),
+            },
+    @before 1 `stmt:if`
+        proof { lemma_client_id_mask(value); }
+    @*/
+
     /// STAND-IN for `ClientID::new`; precondition = the `debug_assert!` of the real body (R9)
     pub fn new(value: u64) -> (r: ClientID)
         requires
